@@ -202,11 +202,13 @@ CLAIMED = {
                 "entry nest at most k deep, fuel k + (number of entries) + 6 is enough for rm_all to return (C13_spec_terminates: each pass "
                 "over a directory that goes through leaves it empty, so two rounds always suffice), and the whole statement for the kernel "
                 "backend from the tree and the path alone: RootRef::remove_all runs to completion, removes only, and on success the entries "
-                "are exactly those before minus the named one and what lies beneath it (C13_remove_all_post_kernel_backend). "
+                "are exactly those before minus the named one and what lies beneath it (C13_remove_all_post_kernel_backend; the same with the "
+                "emulated backend's parent lookup: C13_remove_all_post_emulated_backend). A caller that finds the entry absent -- e.g. after "
+                "another caller's success -- reports success and changes nothing (C13_later_caller_succeeds_without_change). "
                 "Runtime: whole-sandbox snapshots on deep/wide subtrees with links to siblings/parents/outside x path spellings (difference must "
                 "be exactly the named entry and what is below it), 2-4 racing callers per path, and links swapped in at every boundary of a running remove_all.",
-        "note": COMMON_NOTE + "Partial: the end-to-end theorem is proved for the kernel backend (for the emulated backend the parent "
-                "lookup is tied by C04/T3, and C13_root_remove_all_exact applies to either); the fuel is the model's stand-in for 'the loops "
+        "note": COMMON_NOTE + "Partial: the race clause is proved only for callers that run one after the other; remove_all under a concurrent "
+                "remover at system-call granularity is decided by the racing and schedule runs; the fuel is the model's stand-in for 'the loops "
                 "end because the directory empties' -- with a static tree; under a concurrent refiller the library has no bound and none is claimed; getdents returns the whole listing at once in the model (the kernel's batching is covered by the "
                 "all-answers theorem C13_stays_beneath); convergence of concurrent callers is decided by the race / schedule runs. The dynamic "
                 "kernel model is tied by T2d (every answer of recorded remove_all executions incl. listings and F_GETFL, and the final tree).",
@@ -249,14 +251,19 @@ CLAIMED = {
                 "resolution of the path in the resulting tree (walk composition, walks survive the creation of directories: "
                 "C12_handle_is_resolution_in_resulting_tree, C12_mkdir_all_post_kernel_backend); COMPLETENESS: when every remaining component "
                 "that exists is a directory and every name fits NAME_MAX, mk_spec succeeds and so does mkdir_all on the kernel backend "
-                "(C12_spec_complete, C12_mkdir_all_succeeds_kernel_backend). Runtime: whole-sandbox snapshots -- on success the handle equals the kernel's raw in-root resolution "
+                "(C12_spec_complete, C12_mkdir_all_succeeds_kernel_backend). RACE CLAUSE on the model: the creation loop with the environment "
+                "creating directories between any two of its calls -- what every other mkdir_all caller does and what the loop's own steps "
+                "do -- cannot fail where it had no reason to fail at the start, for EVERY interleaving at system-call granularity, and its "
+                "handle is the descent along the components in the final tree; two racing callers of one chain hold the same directory "
+                "(C12_loop_converges_under_racing_creators, C12_racing_callers_hold_the_same_directory, C12_own_steps_are_environment_steps). Runtime: whole-sandbox snapshots -- on success the handle equals the kernel's raw in-root resolution "
                 "of the path in the resulting tree, the new entries form exactly one chain of directories with mode&~umask (|setgid), nothing "
                 "else changed; on failure only one chain of directories was added; racing callers on equal/overlapping paths all succeed "
                 "with handles to the directories now at their paths.",
         "note": COMMON_NOTE + "Partial: the end-to-end functional theorem is proved for the kernel backend; for the emulated backend the loop "
                 "theorem applies but its partial lookup (symlink stack) is tied by the two-backend differential (C04) and T1 only. Modes are not in "
                 "the tree model (the mode handed to mkdirat is part of the all-answers theorems; umask/setgid are judged at run time). Convergence "
-                "under races is decided by the racing runs (real scheduler). The dynamic kernel model is tied by T2d (every answer of recorded "
+                "under races: proved on the model for environments that only create directories; hostile environments (renames, removals) and the real scheduler are "
+                "the racing and schedule runs. The dynamic kernel model is tied by T2d (every answer of recorded "
                 "mkdir_all executions and the final tree).",
         "technique": "Coq proof (argument checks, discipline, balance: all responses; refinement of the creation loop and of the kernel backend's mkdir_all on a dynamic kernel model to a pure function of the tree) + snapshot differential against raw openat2 + racing callers + trace replay incl. T2d",
     },
